@@ -330,7 +330,8 @@ impl<'c, Param, Yield, Return> Coroutine<'c, Param, Yield, Return> {
     ) -> std::io::Result<R> {
         if let Some(co) = Self::current() {
             let remaining_stack = unsafe { co.remaining_stack() };
-            if remaining_stack >= red_zone {
+            // `remaining_stack` is measured down to `stack_bottom`, guard included
+            if remaining_stack >= red_zone.saturating_add(stack_guard_size()) {
                 return Ok(callback());
             }
             return DefaultStack::new(stack_size).map(|stack| {
@@ -362,7 +363,8 @@ impl<'c, Param, Yield, Return> Coroutine<'c, Param, Yield, Return> {
         }
         if let Some(last_stack_info) = STACK_INFOS.with(|s| s.borrow().back().copied()) {
             let remaining_stack = psm::stack_pointer() as usize - last_stack_info.stack_bottom;
-            if remaining_stack >= red_zone {
+            // `remaining_stack` is measured down to `stack_bottom`, guard included
+            if remaining_stack >= red_zone.saturating_add(stack_guard_size()) {
                 return Ok(callback());
             }
         }
@@ -505,6 +507,22 @@ where
                     Ok(CoroutineState::Error(message))
                 }
             }
+        }
+    }
+}
+
+/// The bytes just above the `limit()` of a `DefaultStack` that can not be used as stack.
+///
+/// On unix `limit()` is the bottom of the mapping and its lowest page is the guard page.
+/// On windows the guard pages and the thread stack guarantee lie above `limit()` too, but
+/// `corosensei` does not expose their size: nothing is deducted there (as before), the
+/// default red zone carries extra pages for them.
+fn stack_guard_size() -> usize {
+    cfg_if::cfg_if! {
+        if #[cfg(unix)] {
+            crate::common::page_size()
+        } else {
+            0
         }
     }
 }
